@@ -1,5 +1,5 @@
 \* exhaustive, thorough tier: coarse granularity, every scenario parameter, two faults
-CONSTANTS Pods = {"p1", "p2"}  Tol = {"p2"}
+CONSTANTS Pods = {"p1", "p2"}  Tol = {"p2"}  Late = {"p2"}
   Starts = {"registered", "launched", "unpersisted", "fresh"}
   VaOwners = {"-", "p1", "p2", "orphan"}  TGPs <- BoolBoth  Instants <- BoolBoth
   MaxFaults = 2  MaxRestarts = 1  MaxLen = 1000  MaxSpont = 99
